@@ -241,7 +241,7 @@ inline Outcome run_readers(const CfgEntry &ce, const PlanText &p, Stats &st, Sub
     }
     pthread_attr_destroy(&attr);
     sim_wait_tasks(ids.data(), (int) R);
-    for (size_t r = 0; r < R; ++r) pthread_join(th[r], nullptr);
+    for (size_t r = 0; r < R; ++r) { pthread_join(th[r], nullptr); sim_task_release(ids[r]); }
     // solo pass 2
     for (size_t r = 0; r < R; ++r) run_script(*subj, sim::mix(sseed, r), len, solo2[r]);
     uint64_t switches = sim_stat_switches();
